@@ -12,7 +12,7 @@ META = {
     "level": "model_checking",
     "technique": "TLA+ spec FlavorBlocks: cell domain UnityCells (nf0 x QCD order x QED order x scale-variation scheme x xif x polarized x time-like, 1152 cells) enumerated by TLC together with the branch the runner must take (unity shortcut); every cell instantiated by concrete cards (random method, grid, degree, initial point inside a patch or exactly on a matching scale) and solved by the real solver; each of the 14x14 flavour blocks of the stored operator projected exactly to zero/identity/other and judged by the TLA+ predicate C01_Blocks (FlavorBlocksTrace), with a coverage record that must equal the cell domain",
     "text": "Thorough: exhaustive over the 1152 cells, 4 instantiations each (TLC checks the coverage record against the cell domain); quick: a seeded sample of 300 cells; the oracle is a 0/1 comparison of floats within rounding (1e-14 absolute: the flavour rotation leaves noise of a few 1e-17). Cells excluded by the statement (expanded scheme with non-unit ratio) are executed too but not judged.",
-    "note": "Only configurations the solver accepts are judged (refusals are diagnostics; crashes are violations). The photon rule: identity with QED, zero row and column in pure QCD.",
+    "note": "For 30% of the cells an almost identical solve (differing in the initial nf at the same scale, in the QCD order or in the method) runs first in the same process and is thrown away: state left behind at module level must not reach the judged solve. Only configurations the solver accepts are judged (refusals are diagnostics; crashes are violations). The photon rule: identity with QED, zero row and column in pure QCD.",
     "design_ref": "5 C01",
     "rule": "cell x instantiation; distinct by cell; non-trivial = statement applies and solver accepted the configuration",
 }
@@ -31,9 +31,13 @@ def _cell(args):
                                     xgrid=xgrid, degree=rng.randrange(1, min(4, len(xgrid) - 1) + 1))
     if cell["sv"] == "none":
         th.xif = 1.0
+    after = "-"
+    if rng.random() < 0.3:
+        # an almost identical solve earlier in the same process: nothing of it may reach this one
+        after = dispatch.sibling_solve(th, op, rng)
     o = dispatch.solve_blocks(th, op)
     return {"ev": "unity", "cell": cell, "kind": o["kind"], "exc": o["exc"], "blocks": o["blocks"], "msg": o["msg"],
-            "method": op.configs.evolution_method.value, "nx": len(xgrid)}
+            "method": op.configs.evolution_method.value, "nx": len(xgrid), "after": after}
 
 
 def run(chk):
@@ -69,7 +73,8 @@ def run(chk):
             if fp in seen:
                 continue
             seen.add(fp)
-            chk.violation(fp, f"{v}: cell={c} method={rec['method']} nx={rec['nx']} {rec['msg']}", rec)
+            chk.violation(fp, f"{v}: cell={c} method={rec['method']} nx={rec['nx']} {rec['msg']}"
+                              + (f" (second solve of the process; the first differed in {rec['after']})" if rec.get("after", "-") != "-" else ""), rec)
         elif v.startswith("COVERAGE"):
             raise MachineryError("unity cells not exhausted")
         elif not v.startswith("DIAG"):
